@@ -530,3 +530,16 @@ func (c *Client) StoredReceipts(hash []byte, no uint64) (*StoredRcptRsp, error) 
 	err := c.Call("StoredReceipts", &StoredRcptReq{hash, no}, &r)
 	return &r, err
 }
+
+// ResyncConsensus calls the consensus object's Update with the current best block, the same call
+// the chain service makes after a failed block execution (reloads the in-memory voting-power rank
+// and discards uncommitted parameter changes). Used by the harness after a discarded production.
+func (s *Svc) ResyncConsensus(_ *Empty, _ *Empty) error {
+	b, err := s.n.cs.GetBestBlock()
+	if err != nil {
+		return err
+	}
+	s.n.cons.Update(b)
+	return nil
+}
+func (c *Client) ResyncConsensus() error { return c.Call("ResyncConsensus", &empty, &empty) }
